@@ -8,6 +8,7 @@ from typing import Any, Dict, List, Optional, Tuple
 
 from harness.lib.core import VERIF, Ctx, Rng, lean_lock, run_driver, shrink_ops
 from harness.extract import reward as x_reward
+from harness.extract import reward_graph as x_reward_graph
 from harness.rigs import reward as rig
 
 MANIFEST = {
@@ -583,6 +584,7 @@ def _kind_of(lines: List[str], i: int) -> str:
 def run(ctx: Ctx):
     with lean_lock():
         ctx.extract("Reward", x_reward.emit)
+        ctx.extract("RewardGraph", x_reward_graph.emit)   # its own file: an untranslatable graph function breaks only Props/C10Graph
         ctx.prove(MODULES, exes=[EXE], clean=False, leanchecker=ctx.thorough)
     # the blunt text ties, function by function (the Gen flags the C10_gen_shape* theorems read are computed from the same report)
     try:
